@@ -3,7 +3,7 @@
    offset -- is not covered here.) *)
 From Coq Require Import ZArith List Bool NArith Lia ZifyBool.
 From Falcon Require Import Base.Res IL.Const IL.ConstSpec IL.ConstProofs IL.Expr IL.ExprSpec IL.Func IL.Loc Exec.Sem.
-From Falcon Require Import Isa.X86 Isa.X86Run Isa.X86Lift Isa.X86Mirror Isa.X86Proofs Isa.X86Sim Isa.C01Check Isa.X86Tie Isa.X86SimMem Isa.X86SimCarry Isa.X86SimMore Isa.X86SimXchg Isa.X86SimMul Isa.X86SimShift.
+From Falcon Require Import Isa.X86 Isa.X86Run Isa.X86Lift Isa.X86Mirror Isa.X86Proofs Isa.X86Sim Isa.C01Check Isa.X86Tie Isa.X86SimMem Isa.X86SimCarry Isa.X86SimMore Isa.X86SimXchg Isa.X86SimMul Isa.X86SimShift Isa.X86SimRot.
 Import ListNotations.
 Local Open Scope Z_scope.
 Ltac Zify.zify_post_hook ::= Z.div_mod_to_equations.
@@ -51,3 +51,228 @@ Proof.
 Qed.
 Lemma bitb_is_testbit a n : 0 <= n -> X86.bitb a n = Z.testbit a n.
 Proof. intros Hn. unfold X86.bitb. rewrite <- Z.bit0_odd. apply Z.div_pow2_bits; lia. Qed.
+
+Definition bt_osz (sz : Z) (src : operand) : Z := match src with OImm _ => 8 | _ => sz end.
+Definition bt_form_ok (dst src : operand) : bool :=
+  (isreg dst && regimm src) || (is_mem dst && match src with OImm _ => true | _ => false end).
+Definition bt_result (o : btop) (a bit : Z) : Z :=
+  let cf := X86.bitb a bit in
+  match o with BtT => a | BtS => if cf then a else a + 2 ^ bit | BtR => if cf then a - 2 ^ bit else a | BtC => if cf then a - 2 ^ bit else a + 2 ^ bit end.
+Definition bt_flags (a bit : Z) (f : flags) : flags := mkfl (FB (X86.bitb a bit)) FU (f_zf f) FU FU (f_df f).
+
+Lemma bt_step m next o sz dst src s : bt_form_ok dst src = true ->
+  step m next (IBt o sz dst src) s =
+  match rd_op sz src s with
+  | None => XFault
+  | Some off =>
+      match rd_op sz dst s with
+      | None => XFault
+      | Some a =>
+          match o with
+          | BtT => XNext (set_fl s (bt_flags a (off mod sz) (x_fl s))) next
+          | _ => match option_map (fun s' => set_fl s' (bt_flags a (off mod sz) (x_fl s))) (wr_op sz dst (bt_result o a (off mod sz)) s) with
+                 | Some s' => XNext s' next | None => XFault end
+          end
+      end
+  end.
+Proof.
+  intros Hf. unfold step. destruct (rd_op sz src s) as [off|]; [|reflexivity].
+  assert (Q: (match dst, (match src with OReg _ => true | _ => false end) with
+              | OMem b i d asz, true => OMem b i (d + (sz / 8) * (X86.Sg sz off / sz)) asz | _, _ => dst end) = dst).
+  { destruct dst; try reflexivity. destruct src; try reflexivity. cbn in Hf. discriminate. }
+  rewrite Q. destruct (rd_op sz dst s) as [a|]; [|reflexivity]. destruct o; reflexivity.
+Qed.
+
+Lemma u64max_const_den en sz : width_ok sz -> den en (expr_const U64MAX sz) = Ok (mkc sz (2 ^ sz - 1)).
+Proof. intros Hw. unfold expr_const. rewrite new_big_spec by (destruct Hw as [->|[->|[->| ->]]]; lia). cbn [den]. destruct Hw as [->|[->|[->| ->]]]; reflexivity. Qed.
+
+Definition is_bt_t (o : btop) : bool := match o with BtT => true | _ => false end.
+
+Lemma bt_flags_emb m s (stA st2 : sstate) a bit :
+  emb m s stA -> (forall k, k <> kT0 -> k <> kT1 -> k <> kCF -> env_get (st_env st2) k = env_get (st_env stA) k) ->
+  env_get (st_env st2) kCF = Some (mkc 1 (X86.b2z (X86.bitb a bit))) ->
+  (forall r0, 0 <= r0 < ngpr m -> env_get (st_env st2) (gpr_name m r0, None) = env_get (st_env stA) (gpr_name m r0, None)) /\
+  env_get (st_env st2) kDF = env_get (st_env stA) kDF /\
+  emb_flag (f_cf (bt_flags a bit (x_fl s))) (st_env st2) kCF /\ emb_flag (f_zf (bt_flags a bit (x_fl s))) (st_env st2) kZF /\
+  emb_flag (f_sf (bt_flags a bit (x_fl s))) (st_env st2) kSF /\ emb_flag (f_of (bt_flags a bit (x_fl s))) (st_env st2) kOF.
+Proof.
+  intros He Fk Gc.
+  assert (Tr: forall f0 k, k <> kT0 -> k <> kT1 -> k <> kCF -> emb_flag f0 (st_env stA) k -> emb_flag f0 (st_env st2) k).
+  { intros f0 k K0 K1 K2 H. unfold emb_flag in *. destruct f0; [rewrite Fk by assumption; exact H|destruct H as [v0 H]; exists v0; rewrite Fk by assumption; exact H]. }
+  split; [intros r0 Hr0; destruct (reg_key_facts m r0 Hr0) as (K0 & _ & _ & _ & K4 & _); apply Fk; [exact K0|apply not_eq_sym; apply kT1_ne_reg; exact Hr0|exact K4]|].
+  split; [apply Fk; intro E; inversion E|].
+  cbn [bt_flags f_cf f_zf f_sf f_of]. split; [exact Gc|].
+  split; [apply Tr; [intro E; inversion E|intro E; inversion E|intro E; inversion E|apply (emb_zf _ _ _ He)]|].
+  split; [apply Tr; [intro E; inversion E|intro E; inversion E|intro E; inversion E|apply (emb_flag_weaken _ _ _ (emb_sf _ _ _ He))]|].
+  apply Tr; [intro E; inversion E|intro E; inversion E|intro E; inversion E|apply (emb_flag_weaken _ _ _ (emb_of _ _ _ He))].
+Qed.
+
+Lemma bt_gen m addr nx (o : btop) sz dst src s st a ov :
+  wf m s -> emb m s st -> width_ok sz -> bt_form_ok dst src = true ->
+  opnd_ok m sz dst -> opnd_ok m (bt_osz sz src) src -> opnd_nw sz dst s ->
+  rd_op sz dst s = Some a -> rd_op sz src s = Some ov ->
+  forall s', (match o with
+              | BtT => Some (set_fl s (bt_flags a (ov mod sz) (x_fl s)))
+              | _ => option_map (fun s0 => set_fl s0 (bt_flags a (ov mod sz) (x_fl s))) (wr_op sz dst (bt_result o a (ov mod sz)) s) end) = Some s' ->
+  exists ops st', lift_bt m o sz dst src = Ok ops /\ opnd_mirrored m dst = true /\
+    run_instr 600 (one_block addr ops) [(nx, None)] addr st = RunOk st' (Some nx) /\ emb m s' st' /\ wf m s'.
+Proof.
+  intros Hw He Hwd Hf Hod Hos Hnw Hra Hrs s' Hs'.
+  assert (Hk: isreg dst = true \/ is_mem dst = true).
+  { unfold bt_form_ok in Hf. apply orb_prop in Hf. destruct Hf as [H|H]; apply andb_prop in H; destruct H as [H _]; auto. }
+  assert (Hsm: is_mem src = false).
+  { unfold bt_form_ok in Hf. apply orb_prop in Hf. destruct Hf as [H|H]; apply andb_prop in H; destruct H as [_ H]; destruct src; try discriminate; reflexivity. }
+  set (osz := bt_osz sz src) in *.
+  assert (Hwo: width_ok osz) by (unfold osz, bt_osz; destruct src; try exact Hwd; left; reflexivity).
+  assert (Hco: osz = 8 \/ osz = sz) by (unfold osz, bt_osz; destruct src; auto).
+  assert (Hrs': rd_op osz src s = Some ov) by (destruct src; try discriminate Hsm; exact Hrs).
+  assert (Hnc: opnd_nw osz src s) by (destruct src; try discriminate; exact I).
+  destruct (read2 m sz osz dst src s st a ov Hw He Hod Hos (or_intror Hsm) Hwd Hwo Hnw Hnc Hra Hrs')
+    as (pa & ea & pb & eb & st1 & Oa & Ob & Ma & _ & Nb & Ln & Ex1 & He1 & (Ba & Ha & Da & Ca & Ta) & (Bb & Hov & Db & Cb & Tb)).
+  assert (W0: 0 <= sz) by (destruct Hwd as [->|[->|[->| ->]]]; lia).
+  assert (Hs2: 1 < sz < 2 ^ sz) by (destruct Hwd as [->|[->|[->| ->]]]; pows; lia).
+  destruct (clean_parts _ Ca) as (A0 & _ & _ & _ & A4). destruct (clean_parts _ Cb) as (B0 & _ & _ & _ & B4).
+  (* the offset at the width of the base *)
+  assert (Pre: exists pr offX stA, (if e_bits eb =? sz then Ok ([], eb) else z <- mk_ext Zext sz eb ;; Ok ([OAssign (temp_k 0 sz) z], EScalar (temp_k 0 sz))) = Ok (pr, offX) /\
+            forallb is_assign pr = true /\ (length pr <= 1)%nat /\ exec_ops st1 pr = Ok stA /\ emb m s stA /\
+            e_bits offX = sz /\ den (st_env stA) offX = Ok (mkc sz ov) /\ mentions kT1 offX = false /\ mentions kCF offX = false /\
+            den (st_env stA) ea = Ok (mkc sz a) /\ st_mem stA = st_mem st1).
+  { destruct (e_bits eb =? sz) eqn:Eb.
+    - apply Z.eqb_eq in Eb. rewrite Bb in Eb. rewrite Eb in *. exists [], eb, st1. split; [reflexivity|]. split; [reflexivity|]. split; [cbn; lia|]. split; [reflexivity|]. split; [exact He1|]. split; [exact Bb|]. split; [exact Db|]. split; [exact Tb|]. split; [exact B4|]. split; [exact Da|reflexivity].
+    - apply Z.eqb_neq in Eb. rewrite Bb in Eb. destruct Hco as [H8|H8]; [|congruence]. rewrite H8 in *.
+      assert (Q: (sz <=? 8) || (8 =? 0) = false) by (destruct Hwd as [->|[->|[->| ->]]]; try congruence; reflexivity).
+      assert (Q2: (sz <=? 8) = false) by (destruct Hwd as [->|[->|[->| ->]]]; try congruence; reflexivity).
+      set (z := EExt Zext sz eb).
+      assert (Mz: mk_ext Zext sz eb = Ok z) by (unfold mk_ext; rewrite Bb, Q; reflexivity).
+      assert (Dz: den (st_env st1) z = Ok (mkc sz ov)) by (unfold z; cbn [den]; rewrite Db; cbn [bind]; unfold sp_ext; cbn [cbits cval]; rewrite Q2; reflexivity).
+      set (stA := mkst (env_set (st_env st1) kT0 (mkc sz ov)) (st_mem st1)).
+      exists [OAssign (temp_k 0 sz) z], (EScalar (temp_k 0 sz)), stA.
+      split; [rewrite Mz; reflexivity|]. split; [reflexivity|]. split; [cbn; lia|].
+      split; [cbn [exec_ops]; rewrite (exec_assign st1 _ _ _ Dz); reflexivity|].
+      split; [apply emb_set_T0; exact He1|]. split; [reflexivity|].
+      split; [apply (T0e_den _ sz ov); unfold stA; cbn [st_env]; apply env_get_set_same|]. split; [reflexivity|]. split; [reflexivity|].
+      split; [|reflexivity]. unfold stA. cbn [st_env]. rewrite den_env_set by exact A0. exact Da. }
+  destruct Pre as (pr & offX & stA & Epr & Apr & Lpr & Expr & HeA & Bo & Do & To1 & Toc & DaA & Hm1).
+  set (bit := ov mod sz). assert (Hbit: 0 <= bit < sz) by (apply Z.mod_pos_bound; lia).
+  assert (P2: 0 < 2 ^ bit < 2 ^ sz) by (split; [apply Z.pow_pos_nonneg; lia|apply Z.pow_lt_mono_r; lia]).
+  set (off := EBin And offX (expr_const (sz - 1) sz)). set (sh := EBin Shr ea off).
+  assert (Moff: mk_bin And offX (expr_const (sz - 1) sz) = Ok off) by (unfold mk_bin; rewrite Bo; cbn [e_bits expr_const new_big cbits]; rewrite Z.eqb_refl; reflexivity).
+  assert (Boff: e_bits off = sz) by (unfold off; cbn [e_bits is_cmp]; exact Bo).
+  assert (Msh: mk_bin Shr ea off = Ok sh) by (unfold mk_bin; rewrite Ba, Boff, Z.eqb_refl; reflexivity).
+  assert (Doff: forall en, den en offX = Ok (mkc sz ov) -> den en off = Ok (mkc sz bit)).
+  { intros en D. unfold off. rewrite den_bin, D, (const_den en (sz - 1) sz W0) by lia. cbn [bind]. unfold sp_bin_c. cbn [cbits cval]. rewrite Z.eqb_refl. cbn [negb sp_bin].
+    unfold s_and. rewrite (land_size_mask sz ov Hwd). reflexivity. }
+  assert (Qb: (sz <=? bit) = false) by (apply Z.leb_gt; lia).
+  assert (Dsh: forall en, den en offX = Ok (mkc sz ov) -> den en ea = Ok (mkc sz a) -> den en sh = Ok (mkc sz (a / 2 ^ bit))).
+  { intros en D1 D2. unfold sh. rewrite den_bin, D2, (Doff en D1). cbn [bind]. unfold sp_bin_c. cbn [cbits cval]. rewrite Z.eqb_refl. cbn [negb sp_bin]. unfold s_shr. rewrite Qb. reflexivity. }
+  assert (Q1: (sz <=? 1) = false) by (apply Z.leb_gt; lia). assert (Q0: (sz =? 0) = false) by (apply Z.eqb_neq; lia).
+  assert (Cfv: U 1 (a / 2 ^ bit) = X86.b2z (X86.bitb a bit)) by (unfold U, X86.bitb; change (2 ^ 1) with 2; rewrite b2z_odd; reflexivity).
+  assert (Mtr: forall k, mk_ext Trun 1 (EScalar (temp_k k sz)) = Ok (EExt Trun 1 (EScalar (temp_k k sz)))) by (intros k; unfold mk_ext; cbn [e_bits temp_k sbits]; rewrite Q1, Q0; reflexivity).
+  assert (KT01: kT0 <> kT1) by (intro E; inversion E). assert (KT0c: kT0 <> kCF) by (intro E; inversion E). assert (KT1c: kT1 <> kCF) by (intro E; inversion E).
+  pose proof (Dsh _ Do DaA) as DshA.
+  assert (Run: forall core sto st2 st3, forallb is_assign core = true -> core <> [] -> (length core <= 2)%nat -> exec_ops stA core = Ok st2 ->
+             nobranch sto = true -> (length sto <= 1)%nat -> exec_ops st2 sto = Ok st3 ->
+             run_instr 600 (one_block addr (pa ++ pb ++ pr ++ core ++ sto)) [(nx, None)] addr st = RunOk st3 (Some nx)).
+  { intros core sto st2 st3 Ac Nc Lc Exc Ns Ls Exs. rewrite app_assoc.
+    destruct core as [|c0 ct]; [congruence|].
+    apply run_one_block_nb.
+    - unfold nobranch in *. rewrite forallb_app, Nb. rewrite !forallb_app. pose proof (assign_nobranch _ Apr) as N1. pose proof (assign_nobranch _ Ac) as N2. unfold nobranch in N1, N2. rewrite N1, N2, Ns. reflexivity.
+    - intros E. apply app_eq_nil in E. destruct E as [_ E]. apply app_eq_nil in E. destruct E as [_ E]. discriminate.
+    - rewrite (app_length (pa ++ pb)), (app_length pr), (app_length (c0 :: ct)). lia.
+    - rewrite (exec_ops_app (pa ++ pb) _ st st1 Ex1). rewrite (exec_ops_app pr _ st1 stA Expr). rewrite (exec_ops_app (c0 :: ct) _ stA st2 Exc). exact Exs. }
+  destruct (is_bt_t o) eqn:Ot.
+  - (* bt: t0 := base >> off; CF := trun(t0) *)
+    destruct o; try discriminate Ot. clear Ot. inversion Hs'; subst s'.
+    set (e1 := env_set (st_env stA) kT0 (mkc sz (a / 2 ^ bit))).
+    set (c := EExt Trun 1 (EScalar (temp_k 0 sz))).
+    assert (Dc: den e1 c = Ok (mkc 1 (X86.b2z (X86.bitb a bit)))).
+    { unfold c. cbn [den]. change (skey_of (temp_k 0 sz)) with kT0. unfold e1. rewrite env_get_set_same. cbn [cbits temp_k sbits]. rewrite Z.eqb_refl. cbn [bind].
+      unfold sp_ext. cbn [cbits cval]. rewrite Q1. unfold s_trun. rewrite Cfv. reflexivity. }
+    set (st2 := mkst (env_set e1 kCF (mkc 1 (X86.b2z (X86.bitb a bit)))) (st_mem stA)).
+    assert (Fk: forall k, k <> kT0 -> k <> kT1 -> k <> kCF -> env_get (st_env st2) k = env_get (st_env stA) k).
+    { intros k K0 _ K2. unfold st2, e1. cbn [st_env]. rewrite !env_get_set_other by assumption. reflexivity. }
+    assert (Gc: env_get (st_env st2) kCF = Some (mkc 1 (X86.b2z (X86.bitb a bit)))) by (unfold st2; cbn [st_env]; apply env_get_set_same).
+    destruct (bt_flags_emb m s stA st2 a bit HeA Fk Gc) as (Fr & Fd & Ec & Ez & Es & Eo).
+    destruct (emb_after_flags m s stA st2 (bt_flags a bit (x_fl s)) Hw HeA Fr Fd eq_refl eq_refl Ec Ez Es Eo) as (He2 & Hw2).
+    exists (pa ++ pb ++ pr ++ [OAssign (temp_k 0 sz) sh; assign_flag X86Lift.n_CF c] ++ []), st2.
+    split.
+    { unfold lift_bt. change (match src with OImm _ => 8 | _ => sz end) with osz. rewrite Oa, Ob. cbn [bind fst snd]. rewrite Ba. rewrite Epr. cbn [bind fst snd]. rewrite Moff. cbn [bind]. rewrite Msh. cbn [bind].
+      rewrite (Mtr 0). cbn [bind]. rewrite app_nil_r. reflexivity. }
+    split; [exact Ma|]. split; [|split; [exact He2|exact Hw2]].
+    apply (Run _ [] st2 st2); [reflexivity|discriminate|cbn; lia| |reflexivity|cbn; lia|reflexivity].
+    cbn [exec_ops]. unfold assign_flag. rewrite (exec_assign stA _ _ _ DshA). cbn [bind fst st_env st_mem]. change (skey_of (temp_k 0 sz)) with kT0. fold e1.
+    rewrite (exec_assign (mkst e1 _) _ _ _ Dc). reflexivity.
+  - (* bts / btr / btc *)
+    assert (Hs2': option_map (fun s0 => set_fl s0 (bt_flags a bit (x_fl s))) (wr_op sz dst (bt_result o a bit) s) = Some s') by (destruct o; try discriminate Ot; exact Hs').
+    set (e1 := env_set (st_env stA) kT1 (mkc sz (a / 2 ^ bit))).
+    set (c := EExt Trun 1 (EScalar (temp_k 1 sz))).
+    assert (Dc: den e1 c = Ok (mkc 1 (X86.b2z (X86.bitb a bit)))).
+    { unfold c. cbn [den]. change (skey_of (temp_k 1 sz)) with kT1. unfold e1. rewrite env_get_set_same. cbn [cbits temp_k sbits]. rewrite Z.eqb_refl. cbn [bind].
+      unfold sp_ext. cbn [cbits cval]. rewrite Q1. unfold s_trun. rewrite Cfv. reflexivity. }
+    set (st2 := mkst (env_set e1 kCF (mkc 1 (X86.b2z (X86.bitb a bit)))) (st_mem stA)).
+    assert (Fk: forall k, k <> kT0 -> k <> kT1 -> k <> kCF -> env_get (st_env st2) k = env_get (st_env stA) k).
+    { intros k _ K1 K2. unfold st2, e1. cbn [st_env]. rewrite !env_get_set_other by assumption. reflexivity. }
+    assert (Gc: env_get (st_env st2) kCF = Some (mkc 1 (X86.b2z (X86.bitb a bit)))) by (unfold st2; cbn [st_env]; apply env_get_set_same).
+    destruct (bt_flags_emb m s stA st2 a bit HeA Fk Gc) as (Fr & Fd & Ec & Ez & Es & Eo).
+    assert (Do2: den (st_env st2) offX = Ok (mkc sz ov)) by (unfold st2, e1; cbn [st_env]; rewrite !den_env_set by assumption; exact Do).
+    assert (Da2: den (st_env st2) ea = Ok (mkc sz a)) by (unfold st2, e1; cbn [st_env]; rewrite !den_env_set by assumption; exact DaA).
+    set (one := EBin Shl (expr_const 1 sz) off).
+    assert (Mone: mk_bin Shl (expr_const 1 sz) off = Ok one) by (unfold mk_bin; rewrite Boff; cbn [e_bits expr_const new_big cbits]; rewrite Z.eqb_refl; reflexivity).
+    assert (Done: den (st_env st2) one = Ok (mkc sz (2 ^ bit))).
+    { unfold one. rewrite den_bin, (const_den _ 1 sz W0) by lia. rewrite (Doff _ Do2). cbn [bind]. unfold sp_bin_c. cbn [cbits cval]. rewrite Z.eqb_refl. cbn [negb sp_bin].
+      unfold s_shl, U. rewrite Qb. rewrite Z.mul_1_l, Z.mod_small by lia. reflexivity. }
+    assert (Tb2: X86.bitb a bit = Z.testbit a bit) by (apply bitb_is_testbit; lia).
+    assert (Ex: exists e, (match o with BtS => mk_bin Or ea one | BtR => x <- mk_bin Xor one (expr_const U64MAX sz) ;; mk_bin And ea x | _ => mk_bin Xor ea one end) = Ok e /\
+                 e_bits e = sz /\ den (st_env st2) e = Ok (mkc sz (bt_result o a bit))).
+    { assert (Bone: e_bits one = sz) by reflexivity.
+      destruct o; try discriminate Ot; unfold bt_result; rewrite Tb2.
+      - exists (EBin Or ea one). split; [unfold mk_bin; rewrite Ba, Bone, Z.eqb_refl; reflexivity|]. split; [cbn [e_bits is_cmp]; exact Ba|].
+        rewrite den_bin, Da2, Done. cbn [bind]. unfold sp_bin_c. cbn [cbits cval]. rewrite Z.eqb_refl. cbn [negb sp_bin]. unfold s_or. rewrite (lor_bit a bit) by lia. reflexivity.
+      - set (x := EBin Xor one (expr_const U64MAX sz)). exists (EBin And ea x).
+        assert (Mx: mk_bin Xor one (expr_const U64MAX sz) = Ok x) by (unfold mk_bin; rewrite Bone; cbn [e_bits expr_const new_big cbits]; rewrite Z.eqb_refl; reflexivity).
+        assert (Bx: e_bits x = sz) by reflexivity.
+        split; [rewrite Mx; cbn [bind]; unfold mk_bin; rewrite Ba, Bx, Z.eqb_refl; reflexivity|]. split; [cbn [e_bits is_cmp]; exact Ba|].
+        unfold x. rewrite !den_bin, Da2, Done, (u64max_const_den _ sz Hwd). cbn [bind]. unfold sp_bin_c. cbn [cbits cval]. rewrite !Z.eqb_refl. cbn [negb sp_bin bind cbits cval]. rewrite Z.eqb_refl. cbn [negb sp_bin].
+        unfold s_and, s_xor. rewrite (land_nbit a bit sz) by lia. reflexivity.
+      - exists (EBin Xor ea one). split; [unfold mk_bin; rewrite Ba, Bone, Z.eqb_refl; reflexivity|]. split; [cbn [e_bits is_cmp]; exact Ba|].
+        rewrite den_bin, Da2, Done. cbn [bind]. unfold sp_bin_c. cbn [cbits cval]. rewrite Z.eqb_refl. cbn [negb sp_bin]. unfold s_xor. rewrite (lxor_bit a bit) by lia. reflexivity. }
+    destruct Ex as (e & Me & Be & De).
+    assert (Rr: 0 <= bt_result o a bit < 2 ^ sz).
+    { assert (Tcase: Z.testbit a bit = true -> 2 ^ bit <= a).
+      { intros T. destruct (Z.lt_ge_cases a (2 ^ bit)) as [L|L]; [|exact L]. rewrite <- (Z.mod_small a (2 ^ bit)) in T by lia. rewrite Z.mod_pow2_bits_high in T by lia. discriminate. }
+      assert (Fcase: Z.testbit a bit = false -> a + 2 ^ bit < 2 ^ sz).
+      { intros T. pose proof (lor_bit a bit ltac:(lia) ltac:(lia)) as L. rewrite T in L. rewrite <- L. apply lor_range; lia. }
+      unfold bt_result. rewrite Tb2. destruct o; try discriminate Ot; destruct (Z.testbit a bit) eqn:T; try specialize (Tcase eq_refl); try specialize (Fcase eq_refl); lia. }
+    destruct (write_operand m s stA st2 dst sz (bt_result o a bit) e (bt_flags a bit (x_fl s)) s' Hw HeA Hod Hk Hwd Hnw Rr Be De Fr Fd eq_refl eq_refl Ec Ez Es Eo Hs2')
+      as (sto & st3 & Ost & Sne & Snb & Sln & Hex3 & Hemb & Hwf).
+    exists (pa ++ pb ++ pr ++ [OAssign (temp_k 1 sz) sh; assign_flag X86Lift.n_CF c] ++ sto), st3.
+    split.
+    { unfold lift_bt. change (match src with OImm _ => 8 | _ => sz end) with osz. rewrite Oa, Ob. cbn [bind fst snd]. rewrite Ba. rewrite Epr. cbn [bind fst snd]. rewrite Moff. cbn [bind]. rewrite Msh. cbn [bind].
+      destruct o; try discriminate Ot; rewrite (Mtr 1); cbn [bind]; rewrite Mone; cbn [bind]; fold one; rewrite Me; cbn [bind]; rewrite Ost; reflexivity. }
+    split; [exact Ma|]. split; [|split; [exact Hemb|exact Hwf]].
+    apply (Run _ sto st2 st3); [reflexivity|discriminate|cbn; lia| |exact Snb|exact Sln|exact Hex3].
+    cbn [exec_ops]. unfold assign_flag. rewrite (exec_assign stA _ _ _ DshA). cbn [bind fst st_env st_mem]. change (skey_of (temp_k 1 sz)) with kT1. fold e1.
+    rewrite (exec_assign (mkst e1 _) _ _ _ Dc). reflexivity.
+Qed.
+
+(* bt / bts / btr / btc  r, r | imm8   and   [m], imm8 *)
+Theorem bt_sim m addr len (o : btop) sz dst src :
+  width_ok sz -> bt_form_ok dst src = true -> opnd_ok m sz dst -> opnd_ok m (bt_osz sz src) src ->
+  sim_when (opnd_nw sz dst) m addr len (IBt o sz dst src).
+Proof.
+  intros Hwd Hf Hod Hos s st s' ip Hw He Hnw Hstep.
+  rewrite (bt_step m (addr + len) o sz dst src s Hf) in Hstep.
+  destruct (rd_op sz src s) as [ov|] eqn:Hrs; [|discriminate]. destruct (rd_op sz dst s) as [a|] eqn:Hra; [|discriminate].
+  assert (Hs': exists s2, (match o with BtT => Some (set_fl s (bt_flags a (ov mod sz) (x_fl s)))
+                          | _ => option_map (fun s0 => set_fl s0 (bt_flags a (ov mod sz) (x_fl s))) (wr_op sz dst (bt_result o a (ov mod sz)) s) end) = Some s2 /\ s' = s2 /\ ip = addr + len).
+  { destruct o; [eexists; split; [reflexivity|]; inversion Hstep; auto| | |];
+      (destruct (option_map (fun s0 => set_fl s0 (bt_flags a (ov mod sz) (x_fl s))) (wr_op sz dst _ s)) as [s2|]; [|discriminate]; exists s2; split; [reflexivity|]; inversion Hstep; auto). }
+  destruct Hs' as (s2 & Hs2 & -> & ->).
+  destruct (bt_gen m addr (addr + len) o sz dst src s st a ov Hw He Hwd Hf Hod Hos Hnw Hra Hrs s2 Hs2) as (ops & st' & Hl & Md & Hrun & Hemb & Hwf).
+  exists (one_block addr ops). split.
+  - unfold mirror_instr. fold (bt_form_ok dst src). unfold bt_form_ok in Hf |- *.
+    assert (Q: (isreg dst && regimm src) || (is_mem dst && opnd_mirrored m dst && match src with OImm _ => true | _ => false end) = true).
+    { apply orb_prop in Hf. destruct Hf as [H|H]; [rewrite H; reflexivity|]. apply andb_prop in H. destruct H as [H1 H2]. rewrite H1, Md, H2. apply orb_true_r. }
+    rewrite Q, Hl. reflexivity.
+  - exists st'. auto.
+Qed.
